@@ -50,7 +50,7 @@ Definition v2_decode (data : bytes) : res bytes :=
       let encrypted_frame := slice_neg packet 40 16 in
       let rx_hash := last_n packet 16 in
       if negb (beqb (security_sign (slice_neg packet 0 16)) rx_hash) then Err EProtocol
-      else decrypt_aes encrypted_frame.
+      else catch (decrypt_aes encrypted_frame) [EValue] (fun _ => Err EProtocol).    (* fix: ValueError -> ProtocolError *)
 
 (* ---------------- V3 packets ---------------- *)
 Definition v3_header (length_ : N) (extra : bytes) : res bytes :=
@@ -78,12 +78,12 @@ Definition v3_encode_handshake (packet_id : N) (data : bytes) : res bytes :=
 
 Definition v3_decode_encrypted_response (key : option bytes) (packet : bytes) : res bytes :=
   match key with
-  | None => Err EAssert
+  | None => Err EProtocol          (* fix: was an assert *)
   | Some k =>
     let header := firstn 6 packet in
     let payload := slice_neg packet 6 32 in
     let rx_hash := last_n packet 32 in
-    do dec <- decrypt_aes_cbc k payload;
+    do dec <- catch (decrypt_aes_cbc k payload) [EValue] (fun _ => Err EProtocol);   (* fix: ValueError -> ProtocolError *)
     if negb (beqb (sha256 (header ++ dec)) rx_hash) then Err EProtocol
     else
       do h5 <- idx header 5;
